@@ -8,6 +8,24 @@ V = os.path.dirname(os.path.dirname(os.path.abspath(__file__)))
 CHECKS = ["C%02d" % i for i in range(1, 19)]
 patches = sys.argv[1:] or sorted(glob.glob(V + "/seeded/*/patch.diff")) + sorted(glob.glob(V + "/mutants/*.patch"))
 
+PROP_FILES = json.load(open(V + "/tools/prop_files.json")) if os.path.exists(V + "/tools/prop_files.json") else {}
+
+
+def relevant_checks(p):
+    """MATRIX_RELEVANT=1: only the checks that analyse (or are anchored in) a file the patch touches;
+    headers are relevant to everybody"""
+    if not os.environ.get("MATRIX_RELEVANT") or not PROP_FILES:
+        return CHECKS
+    touched = set()
+    for line in open(p, errors="replace"):
+        if line.startswith("+++ b/") or line.startswith("--- a/"):
+            touched.add(line[6:].strip())
+    if any(t.endswith(".h") for t in touched):
+        return CHECKS
+    out = [c for c in CHECKS if any(t in PROP_FILES.get(c, []) or any(t.endswith(os.path.basename(x)) and os.path.basename(x) == os.path.basename(t) for x in PROP_FILES.get(c, [])) for t in touched)]
+    return out or CHECKS
+
+
 def run_patch(p):
     w = tempfile.mkdtemp(prefix="acq-mx.", dir="/var/tmp")
     try:
@@ -17,7 +35,7 @@ def run_patch(p):
             return p, {"error": "patch does not apply: " + (r.stdout + r.stderr)[-300:]}
         out = {}
         env = dict(os.environ, ACQ_REPO=w + "/repo", ACQ_NO_EVIDENCE="1", ACQ_NO_CONTROLS="1")
-        for c in CHECKS:
+        for c in relevant_checks(p):
             r = subprocess.run([V + "/check", c], capture_output=True, text=True, env=env, cwd=V)
             rules = sorted({l.split("[")[1].split("]")[0] for l in r.stdout.splitlines() if l.strip().startswith("finding [")})
             for l in r.stdout.splitlines():
